@@ -35,9 +35,13 @@ def _main_check(ctx: Ctx) -> None:
     track_loop = next((n for n in fi.node.body if isinstance(n, ast.For) and "tracks" in src(n.iter)), None)
     if track_loop is None:
         raise AnalysisError(f"{FN}: track loop not found")
-    msg_loop = next((n for n in track_loop.body if isinstance(n, ast.For) and "messages" in src(n.iter)), None)
+    # canonical form of the track loop: `if <track is used>: <work>` (the guard clause `if <unused>: continue` is read as this);
+    # `scope` is the block that does the work for a used track
+    msg_loop = next((n for n in ast.walk(track_loop) if isinstance(n, ast.For) and n is not track_loop and "messages" in src(n.iter)), None)
     if msg_loop is None:
         raise AnalysisError(f"{FN}: message loop not found")
+    sel_if = next((s_ for s_ in track_loop.body if isinstance(s_, ast.If) and not s_.orelse and any(msg_loop is x for x in s_.body)), None)
+    scope = sel_if if sel_if is not None else track_loop
     m = msg_loop.target.elts[1].id if isinstance(msg_loop.target, ast.Tuple) else msg_loop.target.id
 
     # --- ACCUM
@@ -54,7 +58,7 @@ def _main_check(ctx: Ctx) -> None:
             or (isinstance(n, ast.AugAssign) and isinstance(n.target, ast.Name) and n.target.id == acc)]
     zero = [d for d in defs if isinstance(d, ast.Assign)]
     augs = [d for d in defs if isinstance(d, ast.AugAssign)]
-    ctx.check(len(zero) == 1 and isinstance(zero[0].value, ast.Constant) and zero[0].value.value == 0 and zero[0] in track_loop.body
+    ctx.check(len(zero) == 1 and isinstance(zero[0].value, ast.Constant) and zero[0].value.value == 0 and zero[0] in scope.body
               and zero[0].lineno < msg_loop.lineno, "ACCUM", f"{FN}: `{acc}` restarts at 0 for every track", function=FN,
               construct="running position is not reset to 0 exactly once per track", message=f"{[short(d) for d in zero]}", file=fi.file,
               node=zero[0] if zero else track_loop)
@@ -127,6 +131,17 @@ def _main_check(ctx: Ctx) -> None:
             if T_ == "TIME_SIGNATURE" and meta is None:
                 meta = call_method(c_)[0].id
     if cur is None or meta is None:
+        # the event may be built first and added later, to a receiver chosen elsewhere: read the roles off the per-kind execution
+        for T_ in ("NOTE_ON", "TIME_SIGNATURE"):
+            recvs = set()
+            for _, st_ in TypeCase(p, fi, {m}, T_).run_body(msg_loop.body):
+                recvs |= {e[1] for e, v_ in st_.counts.items() if e[0] == "append" and e[2] == f"new:{T_}" and v_[1] >= 1}
+            if len(recvs) == 1:
+                if T_ == "NOTE_ON" and cur is None:
+                    cur = next(iter(recvs))
+                if T_ == "TIME_SIGNATURE" and meta is None:
+                    meta = next(iter(recvs))
+    if cur is None or meta is None:
         for nm_, T_ in ((cur, "NOTE_ON"), (meta, "TIME_SIGNATURE")):
             ctx.require("ROUTE", f"{FN}: {T_} events of the file become {T_} events of a sequence", 0 if nm_ is None else 1, 1, function=FN,
                         construct=f"the loader never adds a {T_} event to a sequence", message=f"no `add_absolute_message(Message(message_type={T_}, ...))` in the message loop",
@@ -167,7 +182,7 @@ def _main_check(ctx: Ctx) -> None:
         return isinstance(t, ast.Call) and isinstance(t.func, ast.Name) and t.func.id == "any" and groups in src(t) and idxv0 is not None \
             and any(isinstance(c_, ast.Compare) and isinstance(c_.ops[0], ast.In) and src(c_.left) == idxv0 for c_ in ast.walk(t))
     member_locals = set()
-    for s_ in track_loop.body:
+    for s_ in ast.walk(track_loop):
         if isinstance(s_, ast.Assign) and len(s_.targets) == 1 and isinstance(s_.targets[0], ast.Name) and _member_call(s_.value):
             nm_ = s_.targets[0].id
             if sum(1 for x in ast.walk(track_loop) if isinstance(x, ast.Name) and x.id == nm_ and isinstance(x.ctx, ast.Store)) == 1:
@@ -176,26 +191,88 @@ def _main_check(ctx: Ctx) -> None:
     def is_member_test(t):
         return _member_call(t) or (isinstance(t, ast.Name) and t.id in member_locals)
 
-    # notes only under group membership
-    for c in ctors:
-        T = enum_member(kwarg(c, "message_type"), "MessageType")
-        if T in ("NOTE_ON", "NOTE_OFF"):
-            g = next((a for a in ancestors(c) if isinstance(a, ast.If)), None)
-            ok = g is not None and isinstance(g.test, ast.BoolOp) and isinstance(g.test.op, ast.And) and len(g.test.values) == 2 \
-                and any(is_member_test(v) for v in g.test.values) \
-                and any(isinstance(v, ast.Compare) and enum_member(v.comparators[0], "MessageType") == T and isinstance(v.ops[0], ast.Eq) for v in g.test.values)
-            from ..astutil import extra_conditions
-            more = extra_conditions(c, g.test if g is not None else None, allow=lambda t, holds: not holds and "message_type" in src(t), stop=track_loop)
-            ok = ok and not more
-            ctx.check(ok, "ROUTE", f"{FN}: {T} accepted from exactly the tracks that belong to a group", function=FN,
-                      construct=f"{T} taken from tracks outside every group", message=short(getattr(g, "test", None), 90), file=fi.file, node=c)
-    # skip rule
-    skip = next((s for s in track_loop.body if isinstance(s, ast.If) and any(isinstance(x, ast.Continue) for x in s.body)), None)
-    ok = skip is not None and isinstance(skip.test, ast.BoolOp) and isinstance(skip.test.op, ast.And) and len(skip.test.values) == 2 \
-        and any(isinstance(v, ast.UnaryOp) and isinstance(v.op, ast.Not) and is_member_test(v.operand) for v in skip.test.values) \
-        and any(isinstance(v, ast.Compare) and isinstance(v.ops[0], ast.NotIn) and src(v.left) == idxv0 and src(v.comparators[0]) == metas for v in skip.test.values)
+    # notes only under group membership: with "the track belongs to a group" decided either way, a note of a grouped track is added
+    # exactly once to the track's own sequence and a note of any other track is not added anywhere
+    for T in ("NOTE_ON", "NOTE_OFF"):
+        res = {}
+        for member in (True, False):
+            def decide(test, st, tc, member=member):
+                return member if is_member_test(test) else None
+            evs = {}
+            for k, st in TypeCase(p, fi, {m}, T, decide=decide).run_body(msg_loop.body):
+                for e, v in st.counts.items():
+                    if e[0] == "append" and e[2].startswith("new:"):
+                        lo, hi = evs.get(e, (9, 0))
+                        evs[e] = (min(lo, v[0]), max(hi, v[1]))
+            res[member] = evs
+        ok = not any(v[1] > 0 for v in res[False].values()) and len(res[True]) == 1 and all(e[1] == cur and e[2] == f"new:{T}" and v == (1, 1) for e, v in res[True].items())
+        ctx.check(ok, "ROUTE", f"{FN}: {T} accepted from exactly the tracks that belong to a group", function=FN,
+                  construct=f"{T} taken from tracks outside every group",
+                  message=f"grouped track: {sorted((e[1], e[2], v) for e, v in res[True].items())}; other track: {sorted((e[1], e[2], v) for e, v in res[False].items())}",
+                  file=fi.file, node=msg_loop)
+    # skip rule: the message loop of a track is reached iff the track belongs to a group or is listed as meta -- decided by evaluating
+    # the guards on the way to the loop for the four combinations of the two facts
+    def _is_meta_atom(t):
+        return isinstance(t, ast.Compare) and len(t.ops) == 1 and isinstance(t.ops[0], (ast.In, ast.NotIn)) and src(t.left) == idxv0 and src(t.comparators[0]) == metas
+
+    def _eval(t, member, meta_):
+        if isinstance(t, ast.UnaryOp) and isinstance(t.op, ast.Not):
+            r_ = _eval(t.operand, member, meta_)
+            return None if r_ is None else not r_
+        if isinstance(t, ast.BoolOp):
+            vs = [_eval(v, member, meta_) for v in t.values]
+            if isinstance(t.op, ast.And):
+                return False if any(v is False for v in vs) else (True if all(v is True for v in vs) else None)
+            return True if any(v is True for v in vs) else (False if all(v is False for v in vs) else None)
+        if is_member_test(t):
+            return member
+        if _is_meta_atom(t):
+            return meta_ if isinstance(t.ops[0], ast.In) else not meta_
+        return None
+
+    def _falls(block, member, meta_):
+        """Does control fall off the end of `block`?  True / False / None (not decidable from the two facts)."""
+        for s_ in block:
+            if isinstance(s_, (ast.Continue, ast.Break, ast.Return, ast.Raise)):
+                return False
+            if isinstance(s_, ast.If):
+                t = _eval(s_.test, member, meta_)
+                if t is None:
+                    a, b = _falls(s_.body, member, meta_), _falls(s_.orelse, member, meta_)
+                    if a is True and b is True:
+                        continue
+                    return False if (a is False and b is False) else None
+                r_ = _falls(s_.body if t else s_.orelse, member, meta_)
+                if r_ is not True:
+                    return r_
+        return True
+
+    def _reaches(block, member, meta_):
+        for s_ in block:
+            if s_ is msg_loop:
+                return True
+            if any(x is msg_loop for x in ast.walk(s_)):
+                if isinstance(s_, ast.If):
+                    t = _eval(s_.test, member, meta_)
+                    inb = any(x is msg_loop for y in s_.body for x in ast.walk(y))
+                    if t is None:
+                        return None
+                    if t != inb:
+                        return False
+                    return _reaches(s_.body if inb else s_.orelse, member, meta_)
+                return None
+            r_ = _falls([s_], member, meta_)
+            if r_ is not True:
+                return r_
+        return None
+    table = {(a, b): _reaches(track_loop.body, a, b) for a in (True, False) for b in (True, False)}
+    ok = all(table[(a, b)] is (a or b) for a in (True, False) for b in (True, False))
+    skip = sel_if or next((s for s in track_loop.body if isinstance(s, ast.If) and any(isinstance(x, ast.Continue) for x in ast.walk(s))), None)
     ctx.check(ok, "ROUTE", f"{FN}: a track is skipped iff it is in no group and not a meta track", function=FN,
-              construct="track skip condition is not `in no group and not meta`", message=short(getattr(skip, "test", None), 100), file=fi.file, node=skip or track_loop)
+              construct="track skip condition is not `in no group and not meta`",
+              message=f"messages of a track are read when (in a group, listed as meta) = {sorted(k for k, v in table.items() if v is not False)}"
+                      f"{' (undecided: ' + str(sorted(k for k, v in table.items() if v is None)) + ')' if any(v is None for v in table.values()) else ''}; "
+                      f"expected every combination but (False, False)", file=fi.file, node=skip or track_loop)
     # current sequence selection: group member -> its own slot
     sel = [s for s in ast.walk(track_loop) if isinstance(s, ast.Assign) and any(isinstance(t, ast.Name) and t.id == cur for t in s.targets)
            and isinstance(s.value, ast.Subscript)]
@@ -212,7 +289,7 @@ def _main_check(ctx: Ctx) -> None:
     def _is_meta_test(t):
         return isinstance(t, ast.Compare) and len(t.ops) == 1 and isinstance(t.ops[0], ast.In) and src(t.left) == idxv and src(t.comparators[0]) == metas
     for s_ in sel:
-        pcs = path_conditions(s_, track_loop)
+        pcs = path_conditions(s_, scope)
         ctx.check(len(pcs) == 1 and pcs[0][1] and _is_member_test(pcs[0][0]), "ROUTE", f"{FN}: the slot is selected exactly for tracks that belong to a group", function=FN,
                   construct="a track's own slot is selected under a condition other than `the track belongs to a group`",
                   message=f"{[(short(t, 50), h) for t, h in pcs]}", file=fi.file, node=s_)
@@ -220,7 +297,7 @@ def _main_check(ctx: Ctx) -> None:
             and isinstance(s_.value, ast.Name) and s_.value.id == meta]
     ok_m = len(msel) == 1
     if ok_m:
-        pcs = path_conditions(msel[0], track_loop)
+        pcs = path_conditions(msel[0], scope)
         ok_m = len(pcs) == 2 and pcs[0][1] and _is_meta_test(pcs[0][0]) and (not pcs[1][1]) and _is_member_test(pcs[1][0])
         ok_m = ok_m or (len(pcs) == 1 and pcs[0][1] and _is_meta_test(pcs[0][0]) and any(x.lineno > msel[0].lineno for x in sel))
     ctx.check(ok_m, "ROUTE", f"{FN}: a meta-only track (in no group, listed as meta) writes into the meta sequence", function=FN,
@@ -230,7 +307,8 @@ def _main_check(ctx: Ctx) -> None:
     # --- VEL0
     rfi, sp, rt = midi.reader_table(p)
     ctx.analysed(rfi)
-    ctx.floor("reader dispatch cases decided", midi.parse_rule(ctx), 18)
+    n_parse = midi.parse_rule(ctx)
+    ctx.floor("reader dispatch cases decided", n_parse, 18)
     on = rt.get("note_on", [])
     kinds = sorted((str(r[0]), " and ".join(src(c) for c in r[2])) for r in on)
     pos = [r for r in on if r[0] == "NOTE_ON" and any(isinstance(c, ast.Compare) and isinstance(c.ops[0], ast.Gt) and "velocity" in src(c.left)
@@ -248,7 +326,10 @@ def _main_check(ctx: Ctx) -> None:
         ctx.check(len(rr) == 1 and rr[0][0] == T and not rr[0][2], "VEL0", f"reader: {k} -> {T}", function=rfi.qualname,
                   construct=f"{k} not read as {T}", message="", file=rfi.file, node=rfi.node)
     tset = [s for s in walk_local(rfi.node) if isinstance(s, ast.Assign) and any(isinstance(t, ast.Attribute) and t.attr == "time" for t in s.targets)]
-    ctx.check(len(tset) == 1 and src(tset[0].value) == f"{sp}.time" and not any(isinstance(a, ast.If) for a in ancestors(tset[0]) if a is not rfi.node),
+    # (decided case by case by PARSE -- `time` is copied in each of the 18 cases -- whether by a store or by the constructor call;
+    # the store is looked at only when it is there)
+    ctx.check((not tset and n_parse >= 18) or (len(tset) == 1 and src(tset[0].value) == f"{sp}.time"
+                                                and not any(isinstance(a, ast.If) for a in ancestors(tset[0]) if a is not rfi.node)),
               "VEL0", "reader: every message keeps its delta time", function=rfi.qualname, construct="delta time not copied for every message kind",
               message="", file=rfi.file, node=rfi.node)
 
